@@ -374,7 +374,7 @@ func c03hdr(p *Program, r *Report, rule string) {
 		marker := "(" + b0 + " &^ 128)"
 		switch {
 		case keyIs(get("payloadLength"), "convert:int64("+marker+")"):
-			if v, ok := decidedLike(pa, marker+" < 126"); ok && v {
+			if v, ok := decidedLike(pa, marker+" < 126"); ok && v || pa.IntWithin(marker, 0, 127, 0, 125) {
 				okLen7 = true
 			} else {
 				detail = append(detail, "7-bit length used outside marker<126")
@@ -382,7 +382,7 @@ func c03hdr(p *Program, r *Report, rule string) {
 			}
 		case keyIs(get("payloadLength"), "convert:int64(call:(binary.bigEndian).Uint16@@)"):
 			good := false
-			if v, ok := decidedLike(pa, marker+" == 126"); ok && v {
+			if v, ok := decidedLike(pa, marker+" == 126"); ok && v || pa.IntWithin(marker, 0, 127, 126, 126) {
 				for _, e := range rf {
 					if keyIs(e.Args[1], "slice(param:readBuf,_,2,_)") {
 						good = true
@@ -397,7 +397,7 @@ func c03hdr(p *Program, r *Report, rule string) {
 			}
 		case keyIs(get("payloadLength"), "convert:int64(call:(binary.bigEndian).Uint64@@)"):
 			good := false
-			if v, ok := decidedLike(pa, marker+" == 127"); ok && v {
+			if v, ok := decidedLike(pa, marker+" == 127"); ok && v || pa.IntWithin(marker, 0, 127, 127, 127) {
 				for _, e := range rf {
 					if keyIs(e.Args[1], "param:readBuf") {
 						good = true
@@ -591,7 +591,7 @@ func c03full(p *Program, r *Report, rule string) {
 		case "(*bufio.Reader).ReadByte", "io.ReadFull", "readFrameHeader", "putBufioReader", "(*bufio.Reader).Reset":
 			ok = true
 		}
-		if !ok && !knownFuncs[cs.Name] && cs.Callee != nil && p.isLib(cs.Callee) {
+		if !ok && cs.Callee != nil && !knownFuncs[p.rawName(cs.Callee)] && p.isLib(cs.Callee) {
 			ok = true // the reader is handed to an extracted helper; the helper's own sites are checked
 		}
 		if strings.HasPrefix(cs.Name, "newConn") {
